@@ -362,7 +362,47 @@ Jump1Games ==
                          ELSE IF s = coin THEN <<Tr("", w, win), Tr("", 4 - w, lose)>>
                          ELSE IF s = lose THEN <<Tr("", 1, lose)>> ELSE <<Tr("", 1, win)>>],
                final |-> <<win>>]
+        \* the same with a maximiser in front that has an alternative worth 9/10: between the
+        \* resting value and the final one, so a stale estimate of the pass-through state behind it
+        \* (state 2, which only ever copies the chooser's value) shows in its CHOICE
+        front(L, oc, w) ==
+          LET g == mk(L, P1, oc, w)  n == L + 7
+          IN  [n |-> n, owner |-> <<P1>> \o g.owner \o <<PR>>, reward |-> [s \in 1..n |-> 0],
+               tr |-> [s \in 1..n |-> IF s = 1 THEN <<Tr("go", 0, 2), Tr("alt", 0, n)>>
+                                       ELSE IF s = n THEN <<Tr("", 9, L + 6), Tr("", 1, L + 5)>>
+                                       ELSE [k \in DOMAIN g.tr[s - 1] |->
+                                               [g.tr[s - 1][k] EXCEPT !.t = g.tr[s - 1][k].t + 1]]],
+               final |-> <<L + 6>>]
     IN  { mk(L, o0, oc, w) : L \in 2..5, o0 \in {P1, P2, PR}, oc \in {P1, P2, PR}, w \in {1, 2, 3} }
+        \cup { front(L, oc, w) : L \in 2..5, oc \in {P1, P2, PR}, w \in {1, 2, 3} }
+
+(* Order3: a chooser with three actions whose values are pairwise different, in  *)
+(* every one of the six listing orders (a selection loop that compares with the  *)
+(* previous action instead of the best so far is right for two actions and for   *)
+(* four of the six orders of three).  kind "rew": the three differ in reward and *)
+(* reach the goal surely; kind "reach": they differ in reachability.             *)
+(*   1 (pass-through or the chooser) ; chooser: a, b, c -> three chance states   *)
+(*   then lose, win                                                              *)
+Order3Games ==
+    LET mk(o, p, kind, behind) ==
+          LET c  == IF behind THEN 2 ELSE 1          \* the chooser
+              b0 == c                                \* the three branches are c+1 .. c+3
+              lose == c + 4  win == c + 5  n == c + 5
+              val == <<6, 2, 4>>
+          IN  [n |-> n,
+               owner  |-> [s \in 1..n |-> IF s = c THEN o ELSE PR],
+               reward |-> [s \in 1..n |-> IF s \in (b0 + 1)..(b0 + 3)
+                                           THEN (IF kind = "rew" THEN val[p[s - b0]] ELSE 1) ELSE 0],
+               tr |-> [s \in 1..n |->
+                         IF s = c THEN <<Tr("a", 0, b0 + 1), Tr("b", 0, b0 + 2), Tr("c", 0, b0 + 3)>>
+                         ELSE IF s < c THEN <<Tr("", 1, c)>>
+                         ELSE IF s \in (b0 + 1)..(b0 + 3)
+                              THEN (IF kind = "rew" THEN <<Tr("", 1, win)>>
+                                    ELSE <<Tr("", val[p[s - b0]] + 2, win), Tr("", 8 - val[p[s - b0]], lose)>>)
+                         ELSE <<Tr("", 1, s)>>],
+               final |-> <<win>>]
+    IN  { mk(o, p, kind, behind) : o \in {P1, P2}, p \in Permutations(1..3), kind \in {"rew", "reach"},
+                                   behind \in BOOLEAN }
 
 (* DupLabel: a player state that uses ONE action name on several transitions  *)
 (* (legal: the validation only asks for strings).  Only the clauses on the     *)
@@ -565,11 +605,18 @@ HistFamily == SelectSeq(HistFamilyRaw, LAMBDA d : d.stopping) \o HistFixed
 
 \* the caller EDITS its description between calls (same Python objects, new content):
 \* g2 is g with one transition redirected; calls before and after the edit
+\* or g with another target: one more final state, or a single other one (a sweep over
+\* targets on one description; the candidates are the states the play stops in for free)
+EditFinal(g) ==
+    LET cand == {s \in States(g) : Absorbing(g, s) /\ g.reward[s] = 0}
+        t    == RandomElement(cand)
+    IN  IF RandomElement(1..2) = 1 THEN [g EXCEPT !.final = <<t>>] ELSE [g EXCEPT !.final = g.final \o <<t>>]
 EditOf(g) ==
     LET s == RandomElement(1..g.n)
         k == RandomElement(DOMAIN g.tr[s])
         t == RandomElement(1..g.n)
-    IN  [g EXCEPT !.tr[s][k].t = t]
+    IN  IF RandomElement(1..3) = 1 /\ \E x \in States(g) : Absorbing(g, x) /\ g.reward[x] = 0
+        THEN EditFinal(g) ELSE [g EXCEPT !.tr[s][k].t = t]
 EditFamilyRaw ==
     [i \in 1..K |-> LET g  == TLCEval(HistBase(i))
                         g2 == TLCEval(EditOf(g))
